@@ -61,6 +61,16 @@ func Walk(ctx context.Context, fileSystem fs.FS, prefix, delimiter, marker strin
 	var newMarker string
 	var truncated bool
 
+	// a prefix below one of the skipped directories would start the walk
+	// inside it: nothing there is an object
+	if first, _, nested := strings.Cut(prefix, "/"); nested {
+		for _, skip := range skipdirs {
+			if first == skip {
+				return WalkResults{}, nil
+			}
+		}
+	}
+
 	root := "."
 	if strings.Contains(prefix, "/") {
 		idx := strings.LastIndex(prefix, "/")
